@@ -13,6 +13,7 @@ import (
 	"goatverif/wire"
 )
 
+
 // C06: every emitted envelope sequence conforms to the documented wire protocol.
 
 type protoViolation struct {
@@ -245,6 +246,9 @@ func c06Directed(tier string, seed int64, idx int) *core.Result {
 	parked := make(chan struct{})
 	release := make(chan struct{})
 	h.On("cs.send.window", func(uint64) {
+		if idx%2 == 1 {
+			return
+		}
 		select {
 		case <-armed:
 			close(parked)
@@ -255,6 +259,23 @@ func c06Directed(tier string, seed int64, idx int) *core.Result {
 	h.Install()
 	b := bed.New(bed.Opts{Cap: 4})
 	b.Links[0].Eager = true
+	atEntry := idx%2 == 1
+	if atEntry {
+		// variant: the send is held inside the transport's Write (at its entry, before the transport
+		// orders concurrent writes) instead of before it: concurrent Write calls have no defined
+		// order, so the library must not have a body and the reset in flight at the same time
+		b.Links[0].A.SetOnWriteEntry(func(r *wire.Rpc) {
+			if r.GetBody() == nil {
+				return
+			}
+			select {
+			case <-armed:
+				close(parked)
+				<-release
+			default:
+			}
+		})
+	}
 	gates := NewGates()
 	tag := fmt.Sprintf("dir%d", idx)
 	hrec := &SideRec{}
